@@ -8,10 +8,12 @@ import subprocess
 import sys
 
 HERE = os.path.dirname(os.path.dirname(os.path.abspath(__file__)))
+SEEDS = [int(x) for x in os.environ.get("SEEDS", "0").split(",")]     # SEEDS=0,1,2 tools/run_seeded.py
+ONLY = sys.argv[1:]                                                    # optional: names of changes to run
 rows = []
 for name in sorted(os.listdir(os.path.join(HERE, "seeded"))):
     d = os.path.join(HERE, "seeded", name)
-    if not os.path.isdir(d):
+    if not os.path.isdir(d) or (ONLY and name not in ONLY):
         continue
     meta = json.load(open(os.path.join(d, "meta.json")))
     pid = meta["property"]
@@ -23,25 +25,29 @@ for name in sorted(os.listdir(os.path.join(HERE, "seeded"))):
         continue
     try:
         outs = []
-        for p in [pid] + extra:
+        for p, seed in [(p, seed) for p in [pid] + extra for seed in SEEDS]:
             r = subprocess.run([os.path.join(HERE, "check"), p, "quick"], cwd=HERE, stdout=subprocess.PIPE,
-                               stderr=subprocess.STDOUT, timeout=3000)
+                               stderr=subprocess.STDOUT, timeout=3000, env=dict(os.environ, VERIF_SEED=str(seed)))
             text = r.stdout.decode("utf-8", "replace")
             viol = [l for l in text.split("\n") if l.startswith("VIOLATION")]
             last = [l for l in text.split("\n") if "-> exit" in l][-1:]
             m = re.search(r"(\d+) disagreements, falsifier \d+ cases / (\d+) hits", last[0]) if last else None
             verdict = ("caught with replay on the real code" if viol and "no-failing-input-found" not in viol[0]
                        else "caught (broken correspondence, no failing input found)" if viol else "MISSED")
-            outs.append(f"{p}: {verdict}" + (f" [{m.group(1)} disagreements, {m.group(2)} falsifier hits]" if m else ""))
-        rows.append((name, pid, "; ".join(outs), meta["summary"]))
+            outs.append(f"{p} seed {seed}: {verdict}" + (f" [{m.group(1)} disagreements, {m.group(2)} falsifier hits]" if m else ""))
+        rows.append((name, pid, "<br>".join(outs), meta["summary"]))
     finally:
         subprocess.run(["git", "-C", "/repo", "checkout", "--", "."])
+if ONLY:
+    for r in rows:
+        print(r[0], r[2])
+    sys.exit(0)
 with open(os.path.join(HERE, "seeded", "RESULTS.md"), "w") as f:
-    f.write("# Seeded changes vs. checks (quick tier, VERIF_SEED=0)\n\n"
+    f.write("# Seeded changes vs. checks (quick tier, VERIF_SEED in %s)\n\n"
             "Each change was written by an independent sub-agent that saw only the property text and a scratch worktree;\n"
             "it passes the unchanged 428-test suite and comes with a demonstration (demo.py) — both confirmed in a fresh\n"
             "worktree (meta.json `confirmed`). Regenerate with `tools/run_seeded.py`.\n\n"
-            "| change | property | result | what the change does |\n|---|---|---|---|\n")
+            "| change | property | result | what the change does |\n|---|---|---|---|\n" % SEEDS)
     for name, pid, res, summ in rows:
         f.write(f"| {name} | {pid} | {res} | {summ.replace('|', '/')[:300]} |\n")
 print(open(os.path.join(HERE, "seeded", "RESULTS.md")).read())
